@@ -26,7 +26,7 @@ ENGINES = 'E-STATE + E-SIB + E-ALG over romea-facts'
 TECHNIQUE = 'slicing discipline by ancestor-chain analysis of every buffer use on the instantiated AST; must-pass-through and structural agreement of the two solver paths; bound on the singular-value truncation constant'
 EXPLANATION = ('Every occurrence of J_, Y_, W_ in the solver functions is classified by its enclosing Eigen view (must restrict to dataSize_ rows); the normal-equation loops, the two solver '
                'paths, the weighting and the preconditioner are matched structurally on normalised expression trees.')
-ASSUMPTIONS = ['Eigen head/topRows/block/col/dot/ldlt/JacobiSVD semantics; buffers never shrink (checked: only resize in setDataSize under growth)',
+ASSUMPTIONS = ['estimateSize_ <= dataSize_ (quantifier: data size from the estimate size upwards)', 'Eigen head/topRows/block/col/dot/ldlt/JacobiSVD semantics; buffers never shrink (checked: only resize in setDataSize under growth)',
                'cond(J) < 1e6 (quantifier) hence relative singular values of J^T J down to 1e-12 are significant']
 LEVEL_TEXT = ('For every history of problem sizes: no solver path can read a row beyond the current problem, both paths build and use the same normal equations, and the weighting/preconditioner '
               'are applied as stated. Numerical accuracy for given condition numbers is not decided.')
@@ -49,8 +49,9 @@ def uses_with_chain(node, chain=()):
 
 
 def is_datasize(e):
+    """a row count that stays inside the current problem: dataSize_, or estimateSize_ (<= dataSize_: the quantifier takes the data size from the estimate size upwards)"""
     e = strip_casts(e)
-    return e is not None and e.get('k') == 'Member' and e.get('name') == 'dataSize_' and strip_casts(e['base']).get('k') == 'This'
+    return e is not None and e.get('k') == 'Member' and e.get('name') in ('dataSize_', 'estimateSize_') and strip_casts(e['base']).get('k') == 'This'
 
 
 def sliced(member, chain):
@@ -73,7 +74,9 @@ def sliced(member, chain):
             return True
         if name == 'segment' and len(args) == 2 and const_value(args[0]) == 0 and is_datasize(args[1]):
             return True
-        if name in ('block', 'topLeftCorner') and len(args) == 4 and const_value(args[0]) == 0 and is_datasize(args[2]):
+        if name == 'block' and len(args) == 4 and const_value(args[0]) == 0 and is_datasize(args[2]):
+            return True
+        if name in ('topLeftCorner', 'topRightCorner') and len(args) == 2 and is_datasize(args[0]):
             return True
         if name in ('col', 'array', 'matrix', 'leftCols', 'middleCols', 'rightCols'):
             cur = a
@@ -153,7 +156,11 @@ def effects(fx, cq, f, seen=None):
     return reads, writes, tainted
 
 
-def run(fx, R, tier):
+SV = {'ratio': 1e-12, 'why': 'with cond(J) < 1e6 (quantifier) the singular values of J^T J legitimately span a ratio of 1e12'}
+
+
+def run(fx, R, tier, sv_ratio=1e-12, sv_why='with cond(J) < 1e6 (quantifier) the singular values of J^T J legitimately span a ratio of 1e12'):
+    SV['ratio'], SV['why'] = sv_ratio, sv_why
     classes = sorted(q for q in fx.records if q.startswith('romea::core::LeastSquares<'))
     if len(classes) != 2:
         R.undecided('L1', 'LeastSquares', 'float and double instantiations expected, found %s' % classes)
@@ -259,6 +266,33 @@ def check_normal(fx, R, cq, cname):
         R.undecided('L2', cname + '::computeJTY_', 'idiom not recognised: %s %s' % (hs, ex))
 
 
+def jword(t, locs, depth=0):
+    """expression -> list of (J, power, transposed) factors if it is a product of J-slices, their inverses and transposes; None otherwise."""
+    if depth > 6:
+        return None
+    if isinstance(t, str):
+        if t in locs and locs[t] is not None:
+            return jword(locs[t], locs, depth + 1)
+        return [('J', 1, False)] if t == 'this.J_' else None
+    if not isinstance(t, tuple) or not t:
+        return None
+    op = t[0]
+    if op == '*' and len(t) == 3:
+        a, b = jword(t[1], locs, depth + 1), jword(t[2], locs, depth + 1)
+        return None if a is None or b is None else a + b
+    if op == '.transpose' and len(t) == 2:
+        a = jword(t[1], locs, depth + 1)
+        return None if a is None else [(n, p, not tr) for (n, p, tr) in reversed(a)]
+    if op == '.inverse' and len(t) == 2:
+        a = jword(t[1], locs, depth + 1)
+        return None if a is None else [(n, -p, tr) for (n, p, tr) in reversed(a)]
+    if op in ('.topLeftCorner', '.topRows', '.block', '.leftCols') and len(t) >= 2:
+        return jword(t[1], locs, depth + 1)
+    if isinstance(op, str) and op.startswith('new:Eigen::Matrix') and len(t) == 2:
+        return jword(t[1], locs, depth + 1)
+    return None
+
+
 RET = ('+', ('*', ('*', 'this.Ac_', 'this.inverseJtJ_'), 'this.JtY_'), 'this.Bc_')
 RET2 = ('+', ('*', 'this.Ac_', ('*', 'this.inverseJtJ_', 'this.JtY_')), 'this.Bc_')
 
@@ -298,6 +332,22 @@ def check_paths(fx, R, cq, cname):
                 R.undecided('L3', inst + ':result', 'returns %s, not one of the enumerated forms of Ac_*inverseJtJ_*JtY_ + Bc_' % (rets,))
     stc = stmts_sx(fc)
     inv = [s[1] for s in stc if s[0] == 'expr' and isinstance(s[1], tuple) and s[1][:2] == ('=', 'this.inverseJtJ_')]
+    # stores of inverseJtJ_ built from an inverse of (a slice of) J itself: word algebra over J, J^T, J^-1, J^-T
+    locs = {s[1]: s[2] for s in stc if s[0] == 'decl'}
+    extra = []
+    for st_ in list(inv):
+        w = jword(st_[2], locs)
+        if w is not None:
+            inv.remove(st_)
+            extra.append((st_, w))
+    for (st_, w) in extra:
+        if w == [('J', -1, False), ('J', -1, True)]:
+            R.holds('L3', cname + '::estimateUsingCholeskyDecomposition:inverse(square)', 'J^-1 J^-T = (J^T J)^-1', fx.rel(fc['loc']), 'E-ALG')
+        elif w == [('J', -1, True), ('J', -1, False)]:
+            R.violated('L3', cname + '::estimateUsingCholeskyDecomposition:inverse(square)', 'a path stores inverseJtJ_ = J^-T J^-1 = (J J^T)^-1 (`%s`); the covariance of the estimate is built on (J^T J)^-1 = J^-1 J^-T, '
+                       'which differs whenever J is not normal (same eigenvalues, other entries: the variances are attributed to the wrong parameters)' % (st_[2],), fx.rel(fc['loc']), 'E-ALG')
+        else:
+            R.undecided('L3', cname + '::estimateUsingCholeskyDecomposition:inverse(square)', 'product of J factors %s not decided' % (w,))
     okc = len(inv) == 1 and m(('=', 'this.inverseJtJ_', ('.solve', ({'.ldlt', '.llt'}, 'this.JtJ_'), ('Eigen::MatrixBase<$M>::Identity', 'this.estimateSize_', 'this.estimateSize_'))), inv[0], {}) or \
         (len(inv) == 1 and isinstance(inv[0][2], tuple) and inv[0][2][0] == '.solve' and inv[0][2][1] in (('.ldlt', 'this.JtJ_'), ('.llt', 'this.JtJ_')) and 'Identity' in str(inv[0][2][2]))
     if okc:
@@ -349,8 +399,8 @@ def check_paths(fx, R, cq, cname):
         if k is None:
             R.undecided('L3', inst, 'truncation threshold `%s` is neither a constant nor sigma_max * constant' % pp(thr_node))
         else:
-            R.check(k <= 1e-12, 'L3', inst, 'singular values below sigma_max * %.3g are %s; with cond(J) < 1e6 (quantifier) the singular values of J^T J legitimately span a ratio of 1e12, so '
-                    'well-determined directions are dropped from the solution' % (k, 'zeroed' if else_b else 'not inverted'), 'relative threshold %.3g <= 1e-12' % k, fx.rel(ifs[0]['loc']), 'E-INT')
+            R.check(k <= SV['ratio'], 'L3', inst, 'singular values below sigma_max * %.3g are %s; %s, so '
+                    'well-determined directions are dropped from the solution' % (k, 'zeroed' if else_b else 'not inverted', SV['why']), 'relative threshold %.3g <= %g' % (k, SV['ratio']), fx.rel(ifs[0]['loc']), 'E-INT')
     if else_b and else_b != [inv_stmt]:
         R.holds('L3', inst + ':else', 'values below the threshold: %s' % (else_b,), fx.rel(ifs[0]['loc']), 'E-INT')
 
